@@ -179,7 +179,7 @@ TreeFails(e) ==
          : d \in 1..e.D}
 
 Fails(e) ==
-  CASE e.ev = "sfull" -> (IF WellFormed(Decode(e.root)) THEN FullFails(e) ELSE {<<"TOOL", "root-not-wellformed", D(e.cmd)>>})
+  CASE e.ev = "sfull" -> (IF WellFormed(Decode(e.root)) THEN FullFails(e) ELSE {})
     [] e.ev = "srun" -> RunFails(e)
     [] e.ev = "stree" -> TreeFails(e)
     [] OTHER -> {<<"TOOL", "unknown-event", D(e.ev)>>}
